@@ -574,12 +574,12 @@ class BezierPath(BooleanOperationsMixin, SampleMixin, object):
         for i in leftIntersections.values():
             # XXX tangents here are all positive? Really?
             # print(i.seg1, i.t1, i.point)
-            tangent = s.tangentAtTime(i.t1)
+            tangent = i.seg1.tangentAtTime(i.t1)
             # print("Tangent at left intersection %s is %f" % (i.point,tangent.y))
             leftWinding += int(math.copysign(1, tangent.y))
 
         for i in rightIntersections.values():
-            tangent = s.tangentAtTime(i.t1)
+            tangent = i.seg1.tangentAtTime(i.t1)
             # print("Tangent at right intersection %s is %f" % (i.point,tangent.y))
             rightWinding += int(math.copysign(1, tangent.y))
 
